@@ -93,7 +93,7 @@ class PROP(PropCheck):
             elif n == 1:
                 combos = [(a,) for a in R.POOL]
             else:
-                k = (14 if quick else 200) * scale
+                k = (14 if quick else 120) * scale
                 combos = [tuple(rng.choice(R.POOL) for _ in range(n)) for _ in range(k)]
             # wrong argument counts too
             combos += [tuple(rng.choice(R.POOL) for _ in range(n + 1))]
@@ -127,7 +127,7 @@ class PROP(PropCheck):
         for op in BINOPS:
             for (x, y) in pairs[: (25 if quick else 400) * scale]:
                 out.append(Case(R.PRELUDE + "DISPLAY(%s %s %s)\n" % (x, op, y), meta={"op": op}))
-        for _ in range((150 if quick else 5000) * scale):
+        for _ in range((150 if quick else 3000) * scale):
             g = P.Gen(rng, maxd=rng.randint(1, 3), names=("l", "l2", "m", "a", "s"),
                       procs=[("LENGTH", 1), ("APPEND", 2), ("REMOVE", 2), ("INSERT", 3), ("MAP_GET", 2), ("TO_UPPER", 1), ("ROUND", 1)])
             out.append(Case(R.PRELUDE + "a <- 2\ns <- \"st\"\n" + P.render(P.prog_toks(g.program())), meta={"gen": True}))
